@@ -38,6 +38,34 @@ end
     pr(w)
 end
 ''',
+"arrow_in_operator_context": HEAD + '''start :: fn do
+    a := __ealts1(add(1, 2) + 1, 1 -> add(2) + 1, (1 -> add(2)) + 1, 1 -> (add(2)) + 1)
+    b := __ealts2(inc(add(a, 2)) * 2 - 1, a -> add(2) -> inc() * 2 - 1, (a -> add(2)) -> inc() * 2 - 1)
+    pr(b)
+end
+''',
+"arrow_in_comparison": HEAD + '''start :: fn do
+    b := 2
+    pr(__ealts3(add(b, __lit1) == 3, b -> add(__lit1) == 3, (b -> add(__lit1)) == 3))
+    pr(__ealts4(3 < add(b, 1) and true, 3 < b -> add(1) and true))
+end
+''',
+"local_recursive_function_in_parentheses": HEAD + '''start :: fn do
+    fac :: __ealts1(fn n: int -> int do
+        if n < 1 do
+            ret 1
+        end
+        ret n * fac(n - 1)
+    end, (fn n: int -> int do
+        if n < 1 do
+            ret 1
+        end
+        ret n * fac(n - 1)
+    end))
+    pr(fac(3))
+    pr(__ealts2((fn g: fn int -> int, y: int -> int do ret g(y) end)((fn q: int -> int do ret q + 1 end), 2), (fn q: int -> int do ret q + 1 end) -> (fn g: fn int -> int, y: int -> int do ret g(y) end)(2)))
+end
+''',
 "nested_calls_str": HEAD + '''start :: fn do
     pr(__ealts3(cat(cat("a", "b"), __lit1), "a" -> cat("b") -> cat(__lit1), (cat' (cat' "a", "b"), __lit1)))
 end
@@ -175,6 +203,7 @@ LAYOUT = {
 "blob_instance": "p :: P { a: 1, b: [2] }\n",
 "nested_call_arrow_parens": "y :: f(x -> f(1), (2 + 3) * 4)\n",
 "prime_inside_brackets": "y :: g(f' 1, 2)\nz :: [f' 1]\n",
+"prime_call_continuation": "x := add' 1,\n    2\ny := 3\n",
 "blob_declaration": "P :: blob {\n    a: int,\n    b: [int],\n}\n",
 "fn_signature_types": "f :: fn a: int, b: (int, str) -> [int] do\n    ret [a]\nend\n",
 "type_arguments": "x: P(int, [str]) = p\ny: fn int, (int, str) -> P(int) = q\n",
@@ -390,7 +419,15 @@ def native_ast_same(replay, a, b):
     return None if n(outs[0]) == n(outs[1]) else "the parser builds different syntax trees"
 
 
+FACT = "    if n < 1 do\n            ret 1\n        end\n        ret n * fac(n - 1)\n"
 NATIVE_PAIRS = [
+    ("arrow_call_followed_by_operator", HEAD + "start :: fn do\n    pr(add(1, 2) + 1)\n    pr(inc(add(1, 2)) * 2 - 1)\nend\n", HEAD + "start :: fn do\n    pr(1 -> add(2) + 1)\n    pr(1 -> add(2) -> inc() * 2 - 1)\nend\n"),
+    ("arrow_call_in_comparison", HEAD + "start :: fn do\n    pr(add(1, 2) == 3)\n    pr(add(1, 2) < inc(3) and true)\nend\n", HEAD + "start :: fn do\n    pr(1 -> add(2) == 3)\n    pr(1 -> add(2) < 3 -> inc() and true)\nend\n"),
+    ("parenthesised_arrow_target", HEAD + "start :: fn do\n    pr(add(1, 2))\nend\n", HEAD + "start :: fn do\n    pr(1 -> (add(2)))\nend\n"),
+    ("parenthesised_local_recursive_function", "start :: fn do\n    fac :: fn n: int -> int do\n    " + FACT + "    end\n    pr(fac(3))\nend\n", "start :: fn do\n    fac :: (fn n: int -> int do\n    " + FACT + "    end)\n    pr(fac(3))\nend\n"),
+    ("arrow_onto_lambda_callee", "start :: fn do\n    pr((fn g: fn int -> int, y: int -> int do ret g(y) end)((fn q: int -> int do ret q + 1 end), 2))\nend\n", "start :: fn do\n    pr((fn q: int -> int do ret q + 1 end) -> (fn g: fn int -> int, y: int -> int do ret g(y) end)(2))\nend\n"),
+    ("blank_line_in_prime_call_continuation", HEAD + "start :: fn do\n    x := add' 1,\n        2\n    pr(x)\nend\n", HEAD + "start :: fn do\n    x := add' 1,\n\n        2\n    pr(x)\nend\n"),
+    ("comment_line_in_prime_call_continuation", HEAD + "start :: fn do\n    x := add' 1,\n        2\n    pr(x)\nend\n", HEAD + "start :: fn do\n    x := add' 1,\n        // the second one\n        2\n    pr(x)\nend\n"),
     ("prime_in_arrow_in_multiline_args", HEAD + "start :: fn do\n    pr(add(add(1, 2), inc(3)))\nend\n", HEAD + "start :: fn do\n    pr(\n        (add' 1, 2) -> add(\n            // the second argument\n            inc' 3\n        )\n    )\nend\n"),
     ("indentation_and_blank_lines", HEAD + "start :: fn do\n    x := add(1, 2)\n    if x > 1 do\n        pr(x)\n    end\nend\n", HEAD + "\n\nstart :: fn do\n\n  x := add(1,2)\n\n\t\tif x > 1 do // c\n// c\n pr( x )\n\n            end\n// c\nend\n\n// c\n"),
     ("comment_after_loop", "start :: fn do\n    i := 0\n    loop do\n        i += 1\n        if i > 2 do\n            break\n        end\n    end\n    pr(i)\nend\n", "start :: fn do\n    i := 0\n    loop true do\n        i += 1\n        if i > 2 do\n            break\n        end\n    end\n    // after the loop\n    pr(i)\nend\n"),
